@@ -556,7 +556,9 @@ def events (x : St) (l : RawLine) : Except String (St × List Ev) :=
       match aget x.pend g with | some n => .ok (x, [.push g n]) | none => .error "PushNode return without call"
     else if obj == "List#1" && op == "ret:Remove" then
       match aget x.pend g with | some n => .ok (x, [.remove g n (res == "true")]) | none => .error "Remove return without call"
-    else if obj == "List#1" && op == "ret:PopBack" then
+    else if obj == "List#1" && op == "ret:PopBackIfLonger" && res == "nil" then
+      .ok (x, [])      -- the list is not longer than the minimum: nothing is taken (says nothing about emptiness)
+    else if obj == "List#1" && (op == "ret:PopBack" || op == "ret:PopBackIfLonger") then
       if res == "nil" then .ok (x, [.pop g none]) else
       let (n, nodes) := idx x.nodes res
       .ok ({ x with nodes := nodes }, [.pop g (some n)])
